@@ -6,7 +6,7 @@ from ..common import Names, rat
 from . import c01
 
 PROP = "C07"
-LEAN_MODULE = "VK.Props.C07"
+LEAN_MODULE = "VK.Check.C07"
 THEOREMS = [
     "VK.C07_droop_quota_bound",
     "VK.C07_threshold_pos",
@@ -33,6 +33,9 @@ THEOREMS = [
     "VK.C07_DroopPSC_holds_for_untied_profiles",
     "VK.kernel_threshold_droop",
     "VK.kernel_transfer_value_used",
+    "VK.kernel_quota_simul",
+    "VK.kernel_quota_simul_used",
+    "VK.kernel_quota_step",
 ]
 RULE = ("cases = STV / IRV with the Droop quota, fractional or random transfer, simultaneous or one-by-one, any "
         "tiebreak, on profiles of untied ranked ballots (2-6 candidates); 50% have a planted solid coalition (a random "
